@@ -19,20 +19,27 @@ func c12Time(t time.Time) (secs []int, ns int) {
 	return W64(uint64(t.Unix() + ntpOffset)), t.Nanosecond()
 }
 
-func c12Getters(e ebp.EncoderBoundaryPoint) Ev {
-	g := Ev{"type": int(e.EBPType()), "isempty": e.IsEmpty(), "frag": e.FragmentFlag(), "seg": e.SegmentFlag(),
-		"sapflag": e.SapFlag(), "grouping": e.GroupingFlag(), "timeflag": e.TimeFlag(), "extflag": e.ExtensionFlag(),
-		"sap": int(e.Sap()), "sync": int(e.StreamSyncSignal()), "disc": false, "partition": false}
-	if d, ok := e.(interface{ DiscontinuityFlag() bool }); ok {
-		g["disc"] = d.DiscontinuityFlag()
-	}
-	if d, ok := e.(interface{ ConcealmentFlag() bool }); ok {
-		g["disc"] = d.ConcealmentFlag()
-	}
-	if d, ok := e.(interface{ PartitionFlag() bool }); ok {
-		g["partition"] = d.PartitionFlag()
-	}
-	g["t_secs"], g["t_ns"] = c12Time(e.EBPTime())
+func c12Getters(e ebp.EncoderBoundaryPoint) Ev { return c12GettersO(nil, e) }
+
+// c12GettersO queries the getters in the order the event's key selects (nil: as listed).
+func c12GettersO(ev Ev, e ebp.EncoderBoundaryPoint) Ev {
+	g := Ev{"disc": false, "partition": false}
+	inOrder(ev, func() { g["type"] = int(e.EBPType()) }, func() { g["isempty"] = e.IsEmpty() }, func() { g["frag"] = e.FragmentFlag() },
+		func() { g["seg"] = e.SegmentFlag() }, func() { g["sapflag"] = e.SapFlag() }, func() { g["grouping"] = e.GroupingFlag() },
+		func() { g["timeflag"] = e.TimeFlag() }, func() { g["extflag"] = e.ExtensionFlag() }, func() { g["sap"] = int(e.Sap()) },
+		func() { g["sync"] = int(e.StreamSyncSignal()) },
+		func() {
+			if d, ok := e.(interface{ DiscontinuityFlag() bool }); ok {
+				g["disc"] = d.DiscontinuityFlag()
+			}
+			if d, ok := e.(interface{ ConcealmentFlag() bool }); ok {
+				g["disc"] = d.ConcealmentFlag()
+			}
+		}, func() {
+			if d, ok := e.(interface{ PartitionFlag() bool }); ok {
+				g["partition"] = d.PartitionFlag()
+			}
+		}, func() { g["t_secs"], g["t_ns"] = c12Time(e.EBPTime()) })
 	return g
 }
 
@@ -214,7 +221,7 @@ func (c12) Exec(h []Ev) []Ev {
 				e["err"] = err != nil
 				e["g"], e["redata"], e["g_again"], e["redata2"] = Ev{}, []int{}, Ev{}, []int{}
 				if err == nil {
-					e["g"] = c12Getters(x)
+					e["g"] = c12GettersO(e, x)
 					e["redata"] = B(x.Data())
 					// encoding must not change the object: same values, same bytes again
 					e["g_again"], e["redata2"] = c12Getters(x), B(x.Data())
@@ -291,7 +298,7 @@ func (c12) Exec(h []Ev) []Ev {
 						cc.Grouping = []uint8{5}
 					}
 				}
-				e["g1"] = c12Getters(x)
+				e["g1"] = c12GettersO(e, x)
 				data := x.Data()
 				e["bytes"] = B(data)
 				// encoding must not change the object
@@ -300,7 +307,7 @@ func (c12) Exec(h []Ev) []Ev {
 				e["err2"] = err != nil
 				e["g2"] = Ev{}
 				if err == nil {
-					e["g2"] = c12Getters(y)
+					e["g2"] = c12GettersO(e, y)
 				} else {
 					e["g2"] = e["g1"]
 				}
